@@ -4,7 +4,7 @@
 // the server half, the object left at the path) is concretised and executed as
 // a REAL cedar client handshake (method list [FS]) against a REAL cedar server
 // handshake over TCP loopback.  The client's connection is wrapped in a
-// frame-aware relay (wire.EditConn) that replaces the path string of the
+// frame-aware relay (EditConn) that replaces the path string of the
 // server's FS message, snapshots the filesystem when the client's result code
 // appears on the wire, and injects the faults.
 package fsreplay
@@ -17,6 +17,7 @@ import (
 	"net"
 	"os"
 	"path/filepath"
+	"sort"
 	"strconv"
 	"strings"
 	"sync"
@@ -219,8 +220,56 @@ func (e *Env) serve(ctx context.Context, ln net.Listener) {
 // scanRoots are the places a misdirected mkdir of this harness's paths could
 // land: the base, the filesystem root, /var (the "other directory" of the
 // absolute variants), and the whole sandbox tree (other dir, cwd-relative).
-func (e *Env) scan(tok string, watch []string) []string {
+func (e *Env) scan(tok string, watch []string, sent string, full bool) []string {
+	hits := e.probe(sent)
+	if full {
+		hits = e.list(tok, watch, hits)
+	}
+	return dedupe(hits)
+}
+
+// probe looks for every non-trivial component of the sent path as an entry of
+// every directory a misdirected mkdir could use as parent, and for the path
+// itself (cheap: a few lstat calls; used for every exchange).
+func (e *Env) probe(sent string) []string {
 	var hits []string
+	add := func(p string) {
+		if _, err := os.Lstat(p); err == nil {
+			hits = append(hits, filepath.Clean(p))
+		}
+	}
+	if sent == "" || len(sent) > 4096 {
+		return nil
+	}
+	names := map[string]bool{}
+	for _, c := range strings.Split(sent, "/") {
+		if c != "" && c != "." && c != ".." && c != "tmp" && c != "var" && len(c) <= 255 {
+			names[c] = true
+		}
+	}
+	for _, root := range []string{BaseDir, "/", "/var", e.Sbx, e.Other, e.Cwd, filepath.Join(e.Cwd, "tmp"), filepath.Join(e.Cwd, "other")} {
+		for n := range names {
+			add(filepath.Join(root, n))
+		}
+	}
+	if strings.HasPrefix(sent, "/") {
+		add(sent)
+	} else {
+		add(filepath.Join(e.Cwd, sent))
+	}
+	sort.Strings(hits)
+	out := hits[:0]
+	for i, h := range hits {
+		if i == 0 || h != hits[i-1] {
+			out = append(out, h)
+		}
+	}
+	return out
+}
+
+// list reads the directories completely (used for every accepted path, every
+// mutation, and a sample of the refused ones).
+func (e *Env) list(tok string, watch []string, hits []string) []string {
 	match := func(name string) bool {
 		if tok != "" && strings.Contains(name, tok) {
 			return true
